@@ -266,11 +266,13 @@ class DisplayOracle:
                     break
             if hit is None:
                 c, f = (finals[0][0], finals[0][1]) if finals else (self.committed, self.frame)
+                self._cur_write = (self.sim.seq + 1, self._tid())  # classify against the spans as of now
                 self.violate("screen", "missing-output", "operation %r ended without its output on the screen: expected %s, screen %s" % (
                     self.op, _show(self.expected(c, f)), _show(self.actual(len(c), True))))
             else:
                 self._adopt(hit[0], hit[1], "end")
                 self.full_ok = False  # stages completed without a matching write: row bookkeeping is off
+        self._cur_write = None
         self.stages = []
         self.op = None
 
